@@ -50,6 +50,9 @@ impl BoardSpec {
 pub struct PairScenario {
     pub key_seed: u64,
     pub boards: Vec<BoardSpec>,
+    /// non-empty: the boards are hashed through one engine (Searcher), before and after a
+    /// depth-1 search of each of these roots
+    pub search_roots: Vec<BoardSpec>,
 }
 
 fn hash_under(key_seed: u64, boards: &[Board]) -> (Vec<u64>, u64) {
@@ -89,6 +92,51 @@ pub fn replay_pair(sc: &PairScenario) -> Vec<(String, String, u64)> {
         }
     }
     out
+}
+
+/// The boards hashed through ONE engine: once on a fresh Searcher, then again after a depth-1
+/// search of each root. Every board must keep its hash, and it must be the hash a fresh key
+/// table of the same draw gives.
+pub fn replay_session(sc: &PairScenario) -> Vec<(String, String, u64)> {
+    let built: Vec<(Board, Pos)> = match sc.boards.iter().map(|b| b.build()).collect::<Option<Vec<_>>>() {
+        Some(v) => v,
+        None => return vec![],
+    };
+    let roots: Vec<(Board, Pos)> = match sc.search_roots.iter().map(|b| b.build()).collect::<Option<Vec<_>>>() {
+        Some(v) => v,
+        None => return vec![],
+    };
+    with_bench(|bench| {
+        let mut st = SimState::new(sc.key_seed, 0);
+        st.ev(&format!("cfg c11 session key_seed={}", sc.key_seed));
+        st.max_nodes_per_search = 200_000;
+        let sess = crate::sworld::Session::new(st);
+        sess.fresh(&mut bench.searcher, false);
+        let h0: Vec<u64> = built.iter().map(|(b, _)| bench.searcher.verif_hash(b)).collect();
+        let mut out = vec![];
+        for (ri, (rb, rp)) in roots.iter().enumerate() {
+            if rp.legal_moves().is_empty() {
+                continue;
+            }
+            let r = sess.search(&mut bench.searcher, rb, 1, None);
+            if r.outcome != Outcome::Returned {
+                break;
+            }
+            for (i, (b, _)) in built.iter().enumerate() {
+                let h = bench.searcher.verif_hash(b);
+                if h != h0[i] {
+                    let lh = sess.st().log_hash;
+                    out.push((
+                        "same_position_two_hashes".to_string(),
+                        format!("{:?} hashed to {:016x} on the fresh engine and to {:016x} after a depth-1 search of {:?} (root #{})", sc.boards[i], h0[i], h, sc.search_roots[ri], ri),
+                        lh,
+                    ));
+                    return out;
+                }
+            }
+        }
+        out
+    })
 }
 
 /// Single-component neighbours of a position that are themselves valid positions, plus
@@ -188,16 +236,74 @@ fn neighbours(rng: &mut Rng, p: &Pos) -> Vec<(Pos, &'static str)> {
     out
 }
 
+/// One feature of a position that can be added to (or toggled on) a base position.
+#[derive(Clone, Copy, Debug, PartialEq)]
+pub enum Feat {
+    /// a man (piece code incl. colour) put on an empty square
+    Add(u8, u8),
+    /// the man on this square taken off
+    Remove(u8),
+    Ep(u8),
+    Right(usize),
+    Side,
+}
+
+fn apply_feat(p: &Pos, f: &Feat) -> Option<Pos> {
+    let mut q = p.clone();
+    match *f {
+        Feat::Add(s, pc) => {
+            if q.sq[s as usize] != EMPTY {
+                return None;
+            }
+            q.sq[s as usize] = pc;
+        }
+        Feat::Remove(s) => {
+            if q.sq[s as usize] == EMPTY || kind(q.sq[s as usize]) == KING {
+                return None;
+            }
+            q.sq[s as usize] = EMPTY;
+        }
+        Feat::Ep(e) => {
+            if q.ep.is_some() {
+                return None;
+            }
+            q.ep = Some(e);
+        }
+        Feat::Right(i) => q.castle[i] = !q.castle[i],
+        Feat::Side => {
+            if q.ep.is_some() {
+                return None;
+            }
+            q.white_to_move = !q.white_to_move;
+        }
+    }
+    if q.is_valid() {
+        Some(q)
+    } else {
+        None
+    }
+}
+
+fn feat_name(f: &Feat) -> &'static str {
+    match f {
+        Feat::Add(..) => "man_added",
+        Feat::Remove(..) => "man_removed",
+        Feat::Ep(..) => "ep_added",
+        Feat::Right(..) => "right_toggled",
+        Feat::Side => "side_flipped",
+    }
+}
+
 /// Every valid position that differs from `p` by ONE added or removed feature (a man put
 /// on an empty square or taken off, an ep square set, a right toggled, the side flipped).
 /// Hashed together under one key set, any two of them differ in two components: a key used
 /// for two different features (ep square hashed with a pawn's key, a right's key reused)
 /// makes two of them collide although every single-component change still changes the hash.
-fn one_feature_variants(p: &Pos) -> Vec<(Pos, &'static str)> {
-    let mut out = vec![];
+fn one_feature_variants(p: &Pos) -> (Pos, Vec<(Feat, Pos)>) {
     let mut base = p.clone();
     base.halfmove = base.halfmove.min(99);
     base.fullmove = base.fullmove.clamp(1, 200);
+    let mut feats = vec![];
     for s in 0..64u8 {
         if base.sq[s as usize] == EMPTY {
             for k in [PAWN, KNIGHT, BISHOP, ROOK, QUEEN] {
@@ -205,42 +311,62 @@ fn one_feature_variants(p: &Pos) -> Vec<(Pos, &'static str)> {
                     continue;
                 }
                 for c in [0, BLACK] {
-                    let mut q = base.clone();
-                    q.sq[s as usize] = k | c;
-                    if q.is_valid() {
-                        out.push((q, "man_added"));
-                    }
+                    feats.push(Feat::Add(s, k | c));
                 }
             }
         } else if kind(base.sq[s as usize]) != KING {
-            let mut q = base.clone();
-            q.sq[s as usize] = EMPTY;
-            if q.is_valid() {
-                out.push((q, "man_removed"));
-            }
+            feats.push(Feat::Remove(s));
         }
     }
     if base.ep.is_none() {
         let r = if base.white_to_move { 5 } else { 2 };
         for f in 0..8 {
-            let mut q = base.clone();
-            q.ep = Some(sq(f, r));
-            if q.is_valid() {
-                out.push((q, "ep_added"));
-            }
+            feats.push(Feat::Ep(sq(f, r)));
         }
-        let mut q = base.clone();
-        q.white_to_move = !q.white_to_move;
-        if q.is_valid() {
-            out.push((q, "side_flipped"));
-        }
+        feats.push(Feat::Side);
     }
     for i in 0..4 {
-        let mut q = base.clone();
-        q.castle[i] = !q.castle[i];
-        if q.is_valid() {
-            out.push((q, "right_toggled"));
+        feats.push(Feat::Right(i));
+    }
+    let out = feats.into_iter().filter_map(|f| apply_feat(&base, &f).map(|q| (f, q))).collect();
+    (base, out)
+}
+
+/// Positions that differ in FOUR components. With h0 the hash of the base and d_i = h(base
+/// + f_i) ^ h0, two different pairs of features with d_i ^ d_j == d_k ^ d_l point at a linear
+/// dependency among the keys (e.g. piece colour folded into one key). That is only a search
+/// heuristic: each hit is turned into two concrete valid positions, which are hashed for
+/// real and reported only if they really collide.
+fn four_component_candidates(base: &Pos, variants: &[(Feat, Pos)], h0: u64, hs: &[u64]) -> Vec<(Pos, Pos)> {
+    let n = variants.len();
+    let d: Vec<u64> = hs.iter().map(|h| h ^ h0).collect();
+    let mut pairs: Vec<(u64, u16, u16)> = Vec::with_capacity(n * (n - 1) / 2);
+    for i in 0..n {
+        for j in i + 1..n {
+            pairs.push((d[i] ^ d[j], i as u16, j as u16));
         }
+    }
+    pairs.sort_unstable();
+    let mut out = vec![];
+    let mut a = 0;
+    while a + 1 < pairs.len() && out.len() < 8 {
+        if pairs[a].0 == pairs[a + 1].0 {
+            let (i, j, k, l) = (pairs[a].1 as usize, pairs[a].2 as usize, pairs[a + 1].1 as usize, pairs[a + 1].2 as usize);
+            if i != k && i != l && j != k && j != l {
+                // d_i^d_j == d_k^d_l  <=>  d_i^d_k == d_j^d_l  <=>  d_i^d_l == d_j^d_k
+                for (x1, x2, y1, y2) in [(i, j, k, l), (i, k, j, l), (i, l, j, k)] {
+                    let x = apply_feat(base, &variants[x1].0).and_then(|q| apply_feat(&q, &variants[x2].0));
+                    let y = apply_feat(base, &variants[y1].0).and_then(|q| apply_feat(&q, &variants[y2].0));
+                    if let (Some(x), Some(y)) = (x, y) {
+                        if x.key() != y.key() {
+                            out.push((x, y));
+                            break;
+                        }
+                    }
+                }
+            }
+        }
+        a += 1;
     }
     out
 }
@@ -317,19 +443,28 @@ pub fn run_sim(seed: u64) -> (Judged, Value) {
         probes.add("same_position_via_fen", 1);
     }
     // two-component differences: all one-feature variants of a few base positions
+    let mut variant_sets: Vec<(Pos, Vec<(Feat, Pos)>, usize, usize)> = vec![]; // base, variants, index of base board, index of first variant board
     for _ in 0..3.min(tree_n) {
         let idx = rng.usize_below(tree_n);
         let Some((_, p)) = specs[idx].build() else { continue };
-        let vs = one_feature_variants(&p);
+        let (base, vs) = one_feature_variants(&p);
         probes.add("two_component_bases", 1);
-        for (q, what) in vs {
+        let fen = base.to_fen();
+        specs.push(BoardSpec { fen: fen.clone(), moves: vec![] });
+        boards.push(Board::new(&fen));
+        keys.push(base.key());
+        tags.push("variant_base");
+        let base_idx = boards.len() - 1;
+        let first = boards.len();
+        for (f, q) in &vs {
             let fen = q.to_fen();
             specs.push(BoardSpec { fen: fen.clone(), moves: vec![] });
             boards.push(Board::new(&fen));
             keys.push(q.key());
-            tags.push(what);
-            probes.add(&format!("variant_{}", what), 1);
+            tags.push(feat_name(f));
+            probes.add(&format!("variant_{}", feat_name(f)), 1);
         }
+        variant_sets.push((base, vs, base_idx, first));
     }
     let (hs, lh) = hash_under(key_seed, &boards);
     let mut j = Judged {
@@ -370,6 +505,35 @@ pub fn run_sim(seed: u64) -> (Judged, Value) {
             }
         }
     }
+    // four-component differences (one base per sim): candidates from the XOR structure of
+    // the hashes, each verified on two concrete positions
+    if j.violations.is_empty() {
+        if let Some((base, vs, bi, first)) = variant_sets.first() {
+            let cands = four_component_candidates(base, vs, hs[*bi], &hs[*first..*first + vs.len()]);
+            j.probes.add("four_component_candidate_pairs", cands.len() as u64);
+            j.probes.add("four_component_pair_xors_examined", (vs.len() * vs.len().saturating_sub(1) / 2) as u64);
+            for (x, y) in cands {
+                let sc = PairScenario { key_seed, boards: vec![BoardSpec { fen: x.to_fen(), moves: vec![] }, BoardSpec { fen: y.to_fen(), moves: vec![] }], search_roots: vec![] };
+                if let Some((c, d, lh2)) = replay_pair(&sc).into_iter().next() {
+                    j.violations.push((c, format!("[four components differ] {}", d), sc, lh2));
+                    break;
+                }
+            }
+        }
+    }
+    // the hash seen through an engine that searches in between (one key set, one Searcher):
+    // whatever a search leaves behind must not change the hash of any board
+    if j.violations.is_empty() && tree_n > 0 {
+        let mut pick: Vec<usize> = (0..12.min(tree_n)).map(|_| rng.usize_below(tree_n)).collect();
+        pick.sort();
+        pick.dedup();
+        let roots: Vec<usize> = (0..3.min(tree_n)).map(|_| rng.usize_below(tree_n)).collect();
+        let sc = PairScenario { key_seed, boards: pick.iter().map(|&i| specs[i].clone()).collect(), search_roots: roots.iter().map(|&i| specs[i].clone()).collect() };
+        j.probes.add("boards_rehashed_after_searches", (sc.boards.len() * sc.search_roots.len()) as u64);
+        if let Some((c, d, lh2)) = replay_session(&sc).into_iter().next() {
+            j.violations.push((c, d, sc, lh2));
+        }
+    }
     j.probes.add("transpositions_in_tree", transpositions);
     j.probes.add("tree_positions", tree_n as u64);
     let sample = json!({"root": root_fen, "depth": depth, "boards_hashed": boards.len(), "key_seed": key_seed});
@@ -387,22 +551,24 @@ fn seq_scenario(key_seed: u64, specs: &[BoardSpec], k: usize, i: usize) -> PairS
             idx.push(x);
         }
     }
-    PairScenario { key_seed, boards: idx.into_iter().map(|x| specs[x].clone()).collect() }
+    PairScenario { key_seed, boards: idx.into_iter().map(|x| specs[x].clone()).collect(), search_roots: vec![] }
 }
 
 fn pair_to_json(s: &PairScenario) -> Value {
-    json!({"key_seed": s.key_seed, "boards": s.boards.iter().map(|b| b.to_json()).collect::<Vec<_>>()})
+    json!({"key_seed": s.key_seed, "boards": s.boards.iter().map(|b| b.to_json()).collect::<Vec<_>>(), "search_roots": s.search_roots.iter().map(|b| b.to_json()).collect::<Vec<_>>()})
 }
 fn pair_from_json(v: &Value) -> Option<PairScenario> {
     Some(PairScenario {
         key_seed: v["key_seed"].as_u64().unwrap_or(0),
         boards: v["boards"].as_array()?.iter().filter_map(BoardSpec::from_json).collect(),
+        search_roots: v["search_roots"].as_array().map(|a| a.iter().filter_map(BoardSpec::from_json).collect()).unwrap_or_default(),
     })
 }
 
 pub fn replay_value(v: &Value) -> Vec<Violation> {
     let Some(sc) = pair_from_json(v) else { return vec![] };
-    replay_pair(&sc)
+    let found = if sc.search_roots.is_empty() { replay_pair(&sc) } else { replay_session(&sc) };
+    found
         .into_iter()
         .map(|(c, d, lh)| Violation {
             prop: "C11".into(),
@@ -419,8 +585,15 @@ pub fn replay_value(v: &Value) -> Vec<Violation> {
 pub fn shrink_value(v: &Value) -> Vec<Value> {
     let Some(sc) = pair_from_json(v) else { return vec![] };
     let mut out = vec![];
+    if sc.search_roots.len() > 1 {
+        for i in 0..sc.search_roots.len() {
+            let mut n = sc.clone();
+            n.search_roots.remove(i);
+            out.push(pair_to_json(&n));
+        }
+    }
     // fewer boards
-    if sc.boards.len() > 2 {
+    if sc.boards.len() > 2 || (!sc.search_roots.is_empty() && sc.boards.len() > 1) {
         for i in 0..sc.boards.len() {
             let mut n = sc.clone();
             n.boards.remove(i);
@@ -485,7 +658,7 @@ pub fn run(ctx: &Ctx) -> i32 {
     });
     let ev = Evidence {
         level: "exploration",
-        rule: "One sim = one key set drawn through the randomness seam and one root position (playouts of the rules model, constructed positions): the game tree to depth 2-3 is walked in parallel on the rules model and on engine boards (engine make_move), which reaches the same positions by many move orders; for 40 seeded tree positions every valid single-component neighbour (each castling right, side to move, ep square set/cleared/moved, one piece moved/removed/recoloured/retyped) and counter variants are added as FEN-built boards; for 3 seeded tree positions every valid one-feature variant (a man added on each empty square or removed, ep square set, right toggled, side flipped) is added too, so that all pairs of them - positions differing in two components - are compared. Monitor: canonical position (placement, side, rights, ep) <-> hash must be a bijection on everything hashed under that key set. Evaluations = boards hashed; distinct = distinct canonical positions.".into(),
+        rule: "One sim = one key set drawn through the randomness seam and one root position (playouts of the rules model, constructed positions): the game tree to depth 2-3 is walked in parallel on the rules model and on engine boards (engine make_move), which reaches the same positions by many move orders; for 40 seeded tree positions every valid single-component neighbour (each castling right, side to move, ep square set/cleared/moved, one piece moved/removed/recoloured/retyped) and counter variants are added as FEN-built boards; for 3 seeded tree positions every valid one-feature variant (a man added on each empty square or removed, ep square set, right toggled, side flipped) is added too, so that all pairs of them - positions differing in two components - are compared; for one of these bases the XOR structure of the variant hashes is searched for two pairs of features with equal XOR (a linear dependency among keys), each hit being verified on two concrete positions that differ in four components; finally a dozen tree boards are hashed through one engine before and after depth-1 searches of three other roots (state left by a search must not change any hash). Monitor: canonical position (placement, side, rights, ep) <-> hash must be a bijection on everything hashed under that key set. Evaluations = boards hashed; distinct = distinct canonical positions.".into(),
         extra: serde_json::Map::new(),
         assumptions: vec![
             "weak claim: a monitor over visited positions, not a dedicated search; collision probability of honest 64-bit keys over <=1e5 boards per key set is ~1e-10 and the default seed is fixed".into(),
